@@ -174,10 +174,10 @@ func obsEqual(a, b *Obs) (bool, string) {
 }
 
 // runCase: lock-step execution with the oracle, RW-set audit, replay over the read set.
-func runCase(reader ledger.XMReader, bk *backingDesc, prog []Op, skipScans bool) *caseResult {
+func runCase(reader ledger.XMReader, bk *backingDesc, prog []Op, softNilEnd bool) *caseResult {
 	res := &caseResult{}
 	m := newModel(bk)
-	m.skipScans = skipScans
+	m.softNilEnd = softNilEnd
 	ex := newExecutor(reader, newFakeUtxo())
 	full := append(append([]Op{}, prog...), Op{Kind: opFlush})
 	for i, op := range full {
@@ -201,25 +201,11 @@ func runCase(reader ledger.XMReader, bk *backingDesc, prog []Op, skipScans bool)
 			if obs.End {
 				res.observed++
 			}
-			if skipScans && op.Kind == opScan && op.HiNil && obs.Err == "" {
-				// probe bookkeeping: did the pre-execution answer lack a key that is live?
-				got := map[string]bool{}
-				for _, it := range obs.Items {
-					got[it.K] = true
-				}
-				if op.N < 0 {
-					for _, k := range m.keysOf(op.B) {
-						if live, _ := m.cur(bkey{op.B, k}); live && rangeHas(k, op.Lo, op.Hi, op.HiNil) && !got[k] {
-							res.nilEndMiss++
-							break
-						}
-					}
-				}
-			}
 		}
 	}
 	ex.closeAll()
 	res.f = m.f
+	res.nilEndMiss = m.nilEndMiss
 	m.now = len(full)
 	var rw *contract.RWSet
 	var u *contract.UTXORWSet
